@@ -8,7 +8,7 @@
     middleware added.  A case is
 
       rpc:    [1; nin; nret; oneway; zero; prov; provstyle; cctor; cstyle; pctor; pstyle; padd; poison;
-               nlevels; level; werr; args; hres; events; panicked; result]
+               nlevels; level; werr; args; hres; events; panicked; result; async]
       pubsub: [2; nvars; subvars; herr; pprov; sprov; shared; provstyle; pctor; pstyle; sctor; sstyle;
                poison; args; events; panicked; result]
       mw    = [id; pre; post]     rewrite = [kind; pos; value]   kind 0 set, 1 truncate, 2 append nil, 3 add header
@@ -153,7 +153,8 @@ Definition judge_rpc (explain : bool) (f : list tok) : list Z :=
   let h4 := fst (new_client h3 prov_s cctor_s (repeat [dummy_handler] nlevels)) in
   let wrote := in_place cctor_s (snd (go_append h3 cctor_s (get_middleware h3 prov_s))) in
   let wres := wire_results oneway (Z.eqb 0) 0 zero (lookup_z werr) in
-  let o := rpc nin nret (fun a => a) wres client_method proc_method (fun _ => hres) args in
+  let o0 := rpc nin nret (fun a => a) wres client_method proc_method (fun _ => hres) in
+  let o := if as_int (nth_tok 21 f) =? 1 then async_stub (Z.eqb 0) 0 o0 args else o0 args in
   if explain then encode_outcome o else
   if outcome_eqb o (nth_tok 18 f) (as_int (nth_tok 19 f)) (nth_tok 20 f)
   then [bit (is_panic o) 2 + bit wrote 4 + bit (negb (length poison =? 0)%nat) 8
